@@ -38,12 +38,12 @@ class _RabbitConsumer(ConsumerT):
         self._consumer_tag: str | None = None
         self.__is_paused: bool = False
         self.__is_consuming: bool = False
-        # key of the message which was returned by the latest `consume` call
-        self._last_consumed: RoutingKeyT | None = None
+        # id and delivery tag of the message which was returned by the latest `consume` call
+        self._last_consumed: tuple[str, int | None] | None = None
 
     async def consume(self) -> tuple[RoutingKeyT, str, ParametersT]:
         msg = await self.__consume()
-        self._last_consumed = msg[0]
+        self._last_consumed = (msg[0].id_, self.broker._id_to_delivery_tag.get(msg[0].id_))
         return msg
 
     async def __consume(self) -> tuple[RoutingKeyT, str, ParametersT]:
@@ -141,9 +141,11 @@ class _RabbitConsumer(ConsumerT):
         rejects = []
         if self._last_consumed is not None:
             # the caller of `consume` could have been cancelled before it has received the message
-            # (if the message is settled already, its delivery tag isn't known anymore)
-            tag = self.broker._id_to_delivery_tag.pop(self._last_consumed.id_, None)
-            if tag is not None:
+            # (if the message is settled already, its delivery tag isn't known anymore; if it was
+            # delivered again meanwhile, the known tag is another one)
+            id_, tag = self._last_consumed
+            if tag is not None and self.broker._id_to_delivery_tag.get(id_) == tag:
+                self.broker._id_to_delivery_tag.pop(id_)
                 rejects.append(self.broker._channel.basic_reject(tag))
             self._last_consumed = None
         while self.queue.qsize() > 0:
